@@ -37,8 +37,18 @@ def main():
             meta["apply_error"] = out[-500:]
             print("PATCH DOES NOT APPLY", out[-300:])
             return meta
-        rc, out = sh("go build ./... && go build -tags verif ./...", cwd=wt)
-        meta["builds"] = rc == 0
+        skip = bool(os.environ.get("SEEDEVAL_SKIP_DEMO")) and same and os.path.exists(os.path.join(dst, "meta.json"))
+        if skip:
+            # re-evaluation of a change that was confirmed before: keep the confirmation record, only run the checks
+            old = json.load(open(os.path.join(dst, "meta.json")))
+            for k in ("builds", "demo", "confirmed"):
+                if k in old:
+                    meta[k] = old[k]
+            demos = []
+            rc = 0
+        else:
+            rc, out = sh("go build ./... && go build -tags verif ./...", cwd=wt)
+            meta["builds"] = rc == 0
         if rc:
             meta["build_error"] = out[-800:]
         demo_ok = None
@@ -65,7 +75,8 @@ def main():
                                      "with_tail": out1[-400:], "without_tail": out2[-200:]})
                 meta["ran"].append("demo: " + " ".join(run))
                 demo_ok = rc1 != 0 and rc2 == 0
-        meta["confirmed"] = bool(meta["builds"] and demo_ok)
+        if not skip:
+            meta["confirmed"] = bool(meta["builds"] and demo_ok)
         # the checks against the change: a scratch copy of the committed /verif whose harness is pointed (VERIF_REPO) at
         # the scratch checkout carrying the change - /repo itself is not touched
         sh(["git", "checkout", "--", "."], cwd=wt)
